@@ -45,7 +45,7 @@ def run(tier, seed):
 
     # ---- conformance: interrupt the real session at every tick
     nprog, size, cap = (14, 3, 120) if tier == "quick" else (300, 6, 2000)
-    progs, srcs = refrun.gen_programs(seed, nprog, size, err_rate=0.15, features={"session_safe": True, "tracer": 0.3})
+    progs, srcs = refrun.gen_programs(seed, nprog, size, err_rate=0.15, features={"session_safe": True, "tracer": 0.3, "ext": True})
     tres, exp = refrun.ref_expect(progs)
     ck.add_tlc(tres)
     base = batch("run", [{"id": p["id"], "src": srcs[p["id"]]} for p in progs])
